@@ -20,6 +20,7 @@ Decided on every CFG path of RWLockImpl (state machines explored exhaustively):
 """
 from lib import rwlock_rules as rw
 
+ANCHOR_SOURCES = ["lib/rwlock_rules.py"]
 LEVEL = "other"
 EXPLANATION = __doc__
 NOT_DECIDED = ["mutual exclusion and progress under all interleavings (model checking territory)", "fairness"]
